@@ -135,10 +135,22 @@ fn compress_jobs(jobs: &[FrameJob]) -> Result<Vec<(Vec<u8>, Vec<EncEvent>)>, Pan
     let res = catch(|| {
         let mut out = Vec::new();
         let first = &jobs[0];
-        let mut comp = FrameCompressor::new(level_of(first.level));
-        for j in jobs {
+        let mut comp: FrameCompressor<FragReader<'_>, Vec<u8>, ruzstd::encoding::MatchGeneratorDriver> = FrameCompressor::new(level_of(first.level));
+        for (k, j) in jobs.iter().enumerate() {
             comp.set_compression_level(level_of(j.level));
-            comp.set_source(FragReader { data: &j.data, pattern: j.pattern.clone(), calls: 0 });
+            // later frames are sometimes fed by refilling the existing source through source_mut() (the pattern the
+            // documentation suggests for endless sources) instead of installing a new one
+            let refill = k > 0 && (k + j.data.len()) % 2 == 0;
+            match comp.source_mut() {
+                Some(src) if refill => {
+                    src.data = &j.data;
+                    src.pattern = j.pattern.clone();
+                    src.calls = 0;
+                }
+                _ => {
+                    comp.set_source(FragReader { data: &j.data, pattern: j.pattern.clone(), calls: 0 });
+                }
+            }
             comp.set_drain(Vec::new());
             comp.compress();
             let frame = comp.take_drain().unwrap_or_default();
@@ -477,6 +489,12 @@ pub fn run(args: &Args) -> i32 {
             far.extend_from_slice(&tail);
             directed.push(("far_match".into(), one(far, level, "match at the far end of the block")));
         }
+        // many match distance classes used about equally often plus a rare one: the offset code histogram that needs the
+        // largest table (same for literal / match length classes)
+        for _ in 0..3 {
+            let d = wl::flat_offset_classes(&mut r);
+            directed.push(("flat_offset_codes".into(), one(d, 1, "matches in many distance classes, equally often")));
+        }
         // compressor reuse: hasher, matcher and tables must not leak between frames
         let a = wl::gen(&mut r, Shape::Text, 50_000);
         let b = wl::gen(&mut r, Shape::Skewed, BLOCK + 50_000);
@@ -502,7 +520,7 @@ pub fn run(args: &Args) -> i32 {
     });
 
     // ---------------- random part
-    let n = args.vol(1200, 50_000);
+    let n = args.vol(8000, 150_000);
     par_cases(&rec, 21, n, |i, r| {
         let nframes = if r.chance(1, 4) { r.usize(2, 6) } else { 1 };
         let mut jobs = Vec::new();
